@@ -377,6 +377,13 @@ impl<'a> SemanticBuilder<'a> {
             }
         }
 
+        #[cfg(feature = "verif")]
+        crate::verif_handlers::record_semantic_entries(
+            data.iter()
+                .map(|d| [d.line, d.col, d.length, d.typ, d.modifiers])
+                .collect(),
+        );
+
         data.sort_unstable_by(|a, b| {
             let line1 = a.line;
             let line2 = b.line;
